@@ -44,12 +44,18 @@ TEXT = {
             "in the child and, through its hook, at the child's position in the parent; the parent then reads back exactly "
             "that backing; commands on unhooked views touch nothing else. Value level (C05_*_child): writing a child's new "
             "backing into a container / vector / list parent yields the parent's updated value with the fresh root and "
-            "encoding, composable along any chain of enclosing views. That the Python hook chains perform these writes for "
-            "interleavings of up to 9 simultaneously held views: correspondence.",
+            "encoding. Store level, hook chains of ANY depth (StoreChain.v): chains of held views arise from [i] / .field / "
+            "value() (C05_chain_get / _value); every mutating command through the bottom view either fails leaving the "
+            "whole store untouched or gives the view the value the command specifies and rewrites EVERY enclosing view to "
+            "its value with the nested slot replaced, hooks and types unchanged, nothing outside the chain touched "
+            "(C05_cmd_on_chain), and each then has the root and encoding of that value (C05_chain_observed). That the "
+            "Python closures are these hooks, for interleavings over up to 14 held views obtained by index, iteration "
+            "and slices: correspondence.",
             "Coq proof on the store model and the Repr invariant + correspondence", "5 (C05)"),
     "C06": ("Theorems: on the node heap (addresses, caches) every later allocation / write / root computation leaves what "
             "every existing address denotes unchanged (append-only objects; only root caches are written); copies carry no "
-            "hook and commands on a copy leave every other held view unchanged. Tie: histories with copies + model-free "
+            "hook and commands on a copy leave every other held view unchanged; a command through any view with a valid hook "
+            "chain changes only the cells of that chain (C06_only_the_chain_changes). Tie: histories with copies + model-free "
             "snapshot oracle (root recomputed from scratch, child identity, re-decoding).",
             "Coq proof on heap + store models + correspondence", "5 (C06)"),
     "C07": ("Theorems (Coq, all H/src/trees/paths, by induction on the path): read-back, frame (both directions), "
@@ -100,8 +106,10 @@ TEXT = {
             "and div/mod never overflow; shifts = (a*2^s) mod 2^w and a/2^s; ~a = 2^w-1-a; neg/truediv unsupported. "
             "Tie to code: basic.py operators run against the model on boundary/random operands for all six widths.",
             "Coq proof (lia + Z bit lemmas) + vm_compute correspondence with basic.py", "5 (C13)"),
-    "C14": ("Theorems: a failing command on a top-level view or copy leaves the whole store unchanged (all checks precede "
-            "the single write); each listed violation class (out-of-range / other-width integer, wrong length, over "
+    "C14": ("Theorems: a failing command on a top-level view or copy, or through a child view at the bottom of a valid hook "
+            "chain of any depth, leaves the whole store unchanged (C14_unchanged, C14_unchanged_on_chain); the constructor "
+            "of every type accepts exactly the arguments denoting a valid value and builds a backing representing it "
+            "(C14_constructor_sound / _rejects / _accepts_iff, all types by induction); each listed violation class (out-of-range / other-width integer, wrong length, over "
             "limit, index out of bounds, pop on empty, append to full, invalid selector) is rejected by the model. Tie: "
             "histories with ~40% invalid commands; model-free oracle 'raised => every held view unchanged'.",
             "Coq proof on the store model + correspondence", "5 (C14)"),
